@@ -357,6 +357,39 @@ def main(tier, seed, replay=None):
                 if o_ != ref:
                     empty_diffs.append({"what": "the empty graph as %s argument: handed over as [%s] gives %r, as [%s] gives %r" % (arg, ref_desc, ref, desc, o_),
                                         "data_ttl": dataq.serialize(format="turtle")})
+        # ---- a document that owl:imports another one, handed over in every form with do_owl_imports=True (shapes and ontology argument)
+        imp_path = os.path.join(d, "imported.ttl")
+        open(imp_path, "w").write("@prefix sh: <http://www.w3.org/ns/shacl#> . @prefix ex: <http://ex.org/> . @prefix rdfs: <http://www.w3.org/2000/01/rdf-schema#> .\n"
+                                  "ex:Imp a sh:NodeShape ; sh:targetClass ex:T ; sh:property [ sh:path ex:name ; sh:minCount 1 ] .\nex:Sub rdfs:subClassOf ex:T .\n")
+        main_ttl = ("@prefix owl: <http://www.w3.org/2002/07/owl#> . @prefix sh: <http://www.w3.org/ns/shacl#> . @prefix ex: <http://ex.org/> .\n"
+                    "<urn:main> a owl:Ontology ; owl:imports <file://%s> .\nex:Main a sh:NodeShape ; sh:targetClass ex:T ; sh:property [ sh:path ex:age ; sh:maxCount 1 ] .\n" % imp_path)
+        main_path = os.path.join(d, "main.ttl")
+        open(main_path, "w").write(main_ttl)
+        idata = rdflib.Graph().parse(data="@prefix ex: <http://ex.org/> . ex:a a ex:T ; ex:age 1, 2 . ex:b a ex:Sub .", format="turtle")
+        ishape = rdflib.Graph().parse(data="@prefix sh: <http://www.w3.org/ns/shacl#> . @prefix ex: <http://ex.org/> . ex:Own a sh:NodeShape ; sh:targetClass ex:T ; sh:property [ sh:path ex:name ; sh:minCount 1 ] .", format="turtle")
+        importers = [("Graph object", lambda: (rdflib.Graph().parse(data=main_ttl, format="turtle"), None, None)), ("path", lambda: (main_path, None, None)),
+                     ("file: URI", lambda: ("file://" + main_path, None, None)), ("Turtle text", lambda: (main_ttl, "turtle", None)), ("Turtle bytes", lambda: (main_ttl.encode("utf-8"), "turtle", None)),
+                     ("open binary file", lambda: (lambda fh: (fh, "turtle", fh.close))(open(main_path, "rb"))), ("open text file", lambda: (lambda fh: (fh, None, fh.close))(open(main_path, "r", encoding="utf-8")))]
+        for arg in ("shapes", "ontology"):
+            outs = []
+            for desc, make in importers:
+                src, fmt, closer = make()
+                kw = {"do_owl_imports": True, "inference": "rdfs" if arg == "ontology" else "none"}
+                if fmt:
+                    kw["shacl_graph_format" if arg == "shapes" else "ont_graph_format"] = fmt
+                try:
+                    got = S.run_validate(idata, src if arg == "shapes" else ishape, ont_graph=(src if arg == "ontology" else None), **kw)
+                finally:
+                    if closer:
+                        closer()
+                stats["forms"] += 1
+                stats["importing_document_forms"] = stats.get("importing_document_forms", 0) + 1
+                outs.append((desc, got[:2] + (keys_iso(got),) if got[0] == "ok" else got[:2]))
+            ref_desc, ref = outs[1]     # the file path form is the reference
+            for desc, o_ in outs:
+                if o_ != ref:
+                    empty_diffs.append({"what": "a document with owl:imports as %s argument (do_owl_imports=True): handed over as [%s] gives %r, as [%s] gives %r" % (arg, ref_desc, ref, desc, o_),
+                                        "document": main_ttl, "imported": open(imp_path).read()})
     finally:
         shutil.rmtree(d, ignore_errors=True)
     for dd_ in empty_diffs[:4]:
@@ -386,7 +419,7 @@ def main(tier, seed, replay=None):
     cov.update({
         "evaluations": len(bodies) + stats["forms"] + stats["cases"],
         "distinct_nontrivial": stats["forms"],
-        "rule": "(1) decisions: serialisations of random graphs in turtle/nt/xml/json-ld and perturbed headers (PREFIX/BASE upper case, '# baseURI:' comment, leading blank lines, long prefix lines, blank-node-first N-Triples, empty and blank documents, HTML), path-like and short strings, as str and bytes; the empty graph as shapes / ontology argument in ten forms (Graph(), Dataset(), '', b'', comment-only text and bytes, empty and comment-only files, open file, StringIO) against a data graph carrying its own violated shape: observed source kind / sniffed format / extension format = model; "
+        "rule": "(1) decisions: serialisations of random graphs in turtle/nt/xml/json-ld and perturbed headers (PREFIX/BASE upper case, '# baseURI:' comment, leading blank lines, long prefix lines, blank-node-first N-Triples, empty and blank documents, HTML), path-like and short strings, as str and bytes; the empty graph as shapes / ontology argument in ten forms (Graph(), Dataset(), '', b'', comment-only text and bytes, empty and comment-only files, open file, StringIO) against a data graph carrying its own violated shape; a document with owl:imports of a local file as shapes / ontology argument in seven forms with do_owl_imports=True: observed source kind / sniffed format / extension format = model; "
                 "(2) the property: random shapes/data (canonical literals) + ontology, each of the three graph arguments handed over as str, bytes, path with extension, file: URI, open binary/text file, StringIO/BytesIO, in four formats, with the format stated or omitted where a standard header or extension determines it: same verdict and result keys (blank node labels erased) as with Graph objects",
         "distribution": dict(stats, empty_graph_differences=len(empty_diffs), serialisations_skipped_because_rdflib_round_trip_is_not_isomorphic=dict(forms_of.skipped), decision_cases=kinds, model_disagreements=len(failed), differences=len(diffs)),
         "samples": [{k: (v[:200] if isinstance(v, str) else v) for k, v in meta[0].items()}],
